@@ -156,6 +156,9 @@ type itemPlan struct {
 	Message     string `json:"message"`
 	PayloadMode string `json:"payload"` // absent | requested | other | generic
 	PayloadHex  string `json:"payload_hex,omitempty"`
+	// IDFrom (batches): 0 = the item echoes the Unique Batch Item ID of the request item at its own position;
+	// k > 0 = it carries the ID of request item k-1 (duplicated or permuted IDs); -1 = it carries none
+	IDFrom int `json:"id_from_request_item,omitempty"`
 }
 type respPlan struct {
 	HeaderCount int        `json:"header_count_delta"`
@@ -284,6 +287,11 @@ func buildResponse(rp respPlan, req *ttlvref.Node) []byte {
 				reqOp = o.I
 			}
 			reqID = find(reqItems[i], tUniqueBatchID)
+			if ip.IDFrom > 0 && ip.IDFrom-1 < len(reqItems) {
+				reqID = find(reqItems[ip.IDFrom-1], tUniqueBatchID)
+			} else if ip.IDFrom < 0 {
+				reqID = nil
+			}
 		} else if len(reqItems) > 0 {
 			if o := find(reqItems[0], tOperation); o != nil {
 				reqOp = o.I
@@ -485,6 +493,41 @@ func c12Run(c c12Case) (sig string, err error) {
 		if perr := safely(func() error { upl, uerr = res.Unwrap(); return nil }); perr != nil {
 			return "unwrap-panics", perr
 		}
+		idsDeviate, wantPayloads, gotPayloads := false, 0, 0
+		for _, ip := range rp.Items {
+			idsDeviate = idsDeviate || ip.IDFrom != 0
+			if ip.Status == 0 && ip.OpMode == "requested" && ip.PayloadMode == "requested" {
+				wantPayloads++
+			}
+		}
+		for _, p := range upl {
+			if p != nil {
+				gotPayloads++
+			}
+		}
+		if idsDeviate {
+			// the items carry duplicated, permuted or no IDs: the client may hand them out in another order than they were
+			// sent in, but every item the server sent is still there - a failed one as an error, a successful one as a payload
+			for i, ip := range rp.Items {
+				if ip.Status != 1 {
+					continue
+				}
+				if s := checkErrorCarries(uerr, ip); s != "" {
+					return "unwrap-" + s, fmt.Errorf("Unwrap() = %v does not carry failed item %d %+v (batch item IDs deviate)", uerr, i, ip)
+				}
+				found := false
+				for j := range res {
+					found = found || checkErrorCarries(res[j].Err(), ip) == ""
+				}
+				if !found {
+					return "batch-item-lost", fmt.Errorf("no item of the result carries failed item %d %+v of the response (batch item IDs deviate)", i, ip)
+				}
+			}
+			if uerr == nil && gotPayloads < wantPayloads {
+				return "unwrap-drops-successful-payload", fmt.Errorf("Unwrap() returned %d payloads, the response carries %d successful items (batch item IDs deviate)", gotPayloads, wantPayloads)
+			}
+			return "", nil
+		}
 		for i, ip := range rp.Items {
 			if ip.Status == 1 {
 				// every failed item is surfaced by Unwrap, wherever it stands in the batch
@@ -561,7 +604,7 @@ func c12Run(c c12Case) (sig string, err error) {
 func TestC12Responses(t *testing.T) {
 	const name = "TestC12Responses"
 	rec := evid.New("C12", name, "for every fluent builder (26), Request, Batch+Unwrap, the discovery exchange of Dial and the crypto.Signer construction: a generated well-formed response message from a scripted in-memory server - "+
-		"header batch count in {n, n-1, n+1, n+5}, item count n-1..n+2, per item operation {requested, other implemented, unknown, absent}, status {4 named, unnamed}, reason {none, named, unnamed}, message, payload {absent, of the requested operation, of another operation, generic}; "+
+		"header batch count in {n, n-1, n+1, n+5}, item count n-1..n+2, per item operation {requested, other implemented, unknown, absent}, status {4 named, unnamed}, reason {none, named, unnamed}, message, payload {absent, of the requested operation, of another operation, generic}, in batches Unique Batch Item IDs {echoed in place, of another request item (duplicated or permuted), absent}; "+
 		"oracle: returns; error or the requested operation's payload type; a failed item surfaces as an error carrying status, reason and message; non-trivial = the response deviates from the conformant one; distinct by case").Attach(t)
 	if rp := evid.LoadReplay(name); rp != nil {
 		var c c12Case
@@ -590,6 +633,11 @@ func TestC12Responses(t *testing.T) {
 		case "Batch":
 			c.BatchSize = rapid.IntRange(2, 4).Draw(rt, "batchsize")
 			c.Plans = []respPlan{drawRespPlan(rt, kmip.OperationActivate, c.BatchSize)}
+			if rapid.IntRange(0, 2).Draw(rt, "iddeviation") == 0 {
+				for i := range c.Plans[0].Items {
+					c.Plans[0].Items[i].IDFrom = rapid.SampledFrom([]int{0, 0, -1, 1, 2, c.BatchSize}).Draw(rt, "idfrom")
+				}
+			}
 		default:
 			for _, a := range apiCalls {
 				if a.Name == c.Call {
@@ -603,7 +651,7 @@ func TestC12Responses(t *testing.T) {
 				nt = true
 			}
 			for _, it := range p.Items {
-				if it.OpMode != "requested" || it.Status != 0 || it.PayloadMode != "requested" {
+				if it.OpMode != "requested" || it.Status != 0 || it.PayloadMode != "requested" || it.IDFrom != 0 {
 					nt = true
 				}
 			}
